@@ -28,7 +28,8 @@ type Driver struct {
 }
 
 func StartDriver(path string, oracle Oracle) (*Driver, error) {
-	cmd := exec.Command(path)
+	// the extracted list functions are not tail recursive: megabyte inputs need a deep stack
+	cmd := exec.Command("sh", "-c", `ulimit -s unlimited 2>/dev/null || ulimit -s 1000000 2>/dev/null; exec "$0"`, path)
 	in, err := cmd.StdinPipe()
 	if err != nil {
 		return nil, err
